@@ -128,6 +128,16 @@ def inputs():
     add("gzip-exact-max", resp(headers=GH, framing=TE, body=chunked([gz(b"q" * 64)])))
     add("gzip-over-max", resp(headers=GH, framing=TE, body=chunked([gz(b"q" * 65)])))
     add("gzip-empty-body", resp(headers=GH, framing=(b"Content-Length: 0",)), "either")
+    # responses that cannot have a body but announce a content coding
+    add("gzip-head-only", resp(headers=GH, framing=(b"Content-Length: %d" % len(GZ),)))
+    add("gzip-304", resp(status=b"HTTP/1.1 304 Not Modified", headers=GH))
+    add("gzip-304-cl", resp(status=b"HTTP/1.1 304 Not Modified", headers=GH, framing=(b"Content-Length: %d" % len(GZ),)))
+    add("gzip-204", resp(status=b"HTTP/1.1 204 No Content", headers=GH))
+    # a header line ending in CR CR LF
+    add("eol:crcrlf-header", resp(headers=(b"X-H: 1\r",), framing=(b"Content-Length: 5",), body=b"hello"))
+    add("eol:crcrlf-cl", resp(framing=(b"Content-Length: 5\r",), body=b"hello"))
+    add("eol:crcrlf-te", resp(framing=(b"Transfer-Encoding: chunked\r",), body=chunked([b"hello"])))
+    add("eol:crcrlf-status", resp(status=b"HTTP/1.1 200 OK\r", framing=(b"Content-Length: 5",), body=b"hello"))
     add("deflate", resp(headers=(b"Content-Encoding: deflate",), framing=(b"Content-Length: 5",), body=b"hello"))
     return v
 
